@@ -489,7 +489,7 @@ impl Property for P {
     }
     fn assumptions(&self) -> Vec<String> {
         vec![
-            "chunk size lines (digits + extension) stay <= 20 bytes, the crate's documented sanity limit".into(),
+            "a chunk size has at most 20 significant digits (more would not fit a usize); leading zeros, blanks before an extension, extensions and trailer lines are not bounded".into(),
             "the caller re-presents unconsumed bytes and stops reading a window when a read makes no progress".into(),
         ]
     }
